@@ -1,0 +1,337 @@
+//go:build verif
+
+// Contracts for package ast (comment-only; read by /verif/plvc).
+// The tag/payload agreement of Node is an object invariant: established by the
+// Wrap* constructors, relied upon by every accessor.
+
+package ast
+
+//@ struct Node
+//@ props C01 C05
+//@ invariant self.NodeType == TypeIdentifier ==> typeis(self.elem, *Identifier) && self.elem.(*Identifier) != nil
+//@ invariant self.NodeType == TypeStringLiteral ==> typeis(self.elem, *StringLiteral) && self.elem.(*StringLiteral) != nil
+//@ invariant self.NodeType == TypeIntegerLiteral ==> typeis(self.elem, *IntegerLiteral) && self.elem.(*IntegerLiteral) != nil
+//@ invariant self.NodeType == TypeFloatLiteral ==> typeis(self.elem, *FloatLiteral) && self.elem.(*FloatLiteral) != nil
+//@ invariant self.NodeType == TypeBoolLiteral ==> typeis(self.elem, *BoolLiteral) && self.elem.(*BoolLiteral) != nil
+//@ invariant self.NodeType == TypeNilLiteral ==> typeis(self.elem, *NilLiteral) && self.elem.(*NilLiteral) != nil
+//@ invariant self.NodeType == TypeListLiteral ==> typeis(self.elem, *ListLiteral) && self.elem.(*ListLiteral) != nil
+//@ invariant self.NodeType == TypeMapLiteral ==> typeis(self.elem, *MapLiteral) && self.elem.(*MapLiteral) != nil
+//@ invariant self.NodeType == TypeParenExpr ==> typeis(self.elem, *ParenExpr) && self.elem.(*ParenExpr) != nil
+//@ invariant self.NodeType == TypeAttrExpr ==> typeis(self.elem, *AttrExpr) && self.elem.(*AttrExpr) != nil
+//@ invariant self.NodeType == TypeIndexExpr ==> typeis(self.elem, *IndexExpr) && self.elem.(*IndexExpr) != nil
+//@ invariant self.NodeType == TypeArithmeticExpr ==> typeis(self.elem, *ArithmeticExpr) && self.elem.(*ArithmeticExpr) != nil
+//@ invariant self.NodeType == TypeConditionalExpr ==> typeis(self.elem, *ConditionalExpr) && self.elem.(*ConditionalExpr) != nil
+//@ invariant self.NodeType == TypeInExpr ==> typeis(self.elem, *InExpr) && self.elem.(*InExpr) != nil
+//@ invariant self.NodeType == TypeUnaryExpr ==> typeis(self.elem, *UnaryExpr) && self.elem.(*UnaryExpr) != nil
+//@ invariant self.NodeType == TypeAssignmentExpr ==> typeis(self.elem, *AssignmentExpr) && self.elem.(*AssignmentExpr) != nil
+//@ invariant self.NodeType == TypeCallExpr ==> typeis(self.elem, *CallExpr) && self.elem.(*CallExpr) != nil
+//@ invariant self.NodeType == TypeSliceExpr ==> typeis(self.elem, *SliceExpr) && self.elem.(*SliceExpr) != nil
+//@ invariant self.NodeType == TypeIfelseStmt ==> typeis(self.elem, *IfelseStmt) && self.elem.(*IfelseStmt) != nil
+//@ invariant self.NodeType == TypeForStmt ==> typeis(self.elem, *ForStmt) && self.elem.(*ForStmt) != nil
+//@ invariant self.NodeType == TypeForInStmt ==> typeis(self.elem, *ForInStmt) && self.elem.(*ForInStmt) != nil
+//@ invariant self.NodeType == TypeContinueStmt ==> typeis(self.elem, *ContinueStmt) && self.elem.(*ContinueStmt) != nil
+//@ invariant self.NodeType == TypeBreakStmt ==> typeis(self.elem, *BreakStmt) && self.elem.(*BreakStmt) != nil
+//@ invariant self.NodeType == TypeBlockStmt ==> typeis(self.elem, *BlockStmt) && self.elem.(*BlockStmt) != nil
+
+//@ func (*Node).Identifier
+//@ props C01
+//@ pure
+//@ requires n != nil && n.NodeType == TypeIdentifier
+//@ ensures result != nil && typeis(n.elem, *Identifier) && result == n.elem.(*Identifier)
+
+//@ func (*Node).StringLiteral
+//@ props C01
+//@ pure
+//@ requires n != nil && n.NodeType == TypeStringLiteral
+//@ ensures result != nil && typeis(n.elem, *StringLiteral) && result == n.elem.(*StringLiteral)
+
+//@ func (*Node).IntegerLiteral
+//@ props C01
+//@ pure
+//@ requires n != nil && n.NodeType == TypeIntegerLiteral
+//@ ensures result != nil && typeis(n.elem, *IntegerLiteral) && result == n.elem.(*IntegerLiteral)
+
+//@ func (*Node).FloatLiteral
+//@ props C01
+//@ pure
+//@ requires n != nil && n.NodeType == TypeFloatLiteral
+//@ ensures result != nil && typeis(n.elem, *FloatLiteral) && result == n.elem.(*FloatLiteral)
+
+//@ func (*Node).BoolLiteral
+//@ props C01
+//@ pure
+//@ requires n != nil && n.NodeType == TypeBoolLiteral
+//@ ensures result != nil && typeis(n.elem, *BoolLiteral) && result == n.elem.(*BoolLiteral)
+
+//@ func (*Node).NilLiteral
+//@ props C01
+//@ pure
+//@ requires n != nil && n.NodeType == TypeNilLiteral
+//@ ensures result != nil && typeis(n.elem, *NilLiteral) && result == n.elem.(*NilLiteral)
+
+//@ func (*Node).ListLiteral
+//@ props C01
+//@ pure
+//@ requires n != nil && n.NodeType == TypeListLiteral
+//@ ensures result != nil && typeis(n.elem, *ListLiteral) && result == n.elem.(*ListLiteral)
+
+//@ func (*Node).MapLiteral
+//@ props C01
+//@ pure
+//@ requires n != nil && n.NodeType == TypeMapLiteral
+//@ ensures result != nil && typeis(n.elem, *MapLiteral) && result == n.elem.(*MapLiteral)
+
+//@ func (*Node).ParenExpr
+//@ props C01
+//@ pure
+//@ requires n != nil && n.NodeType == TypeParenExpr
+//@ ensures result != nil && typeis(n.elem, *ParenExpr) && result == n.elem.(*ParenExpr)
+
+//@ func (*Node).AttrExpr
+//@ props C01
+//@ pure
+//@ requires n != nil && n.NodeType == TypeAttrExpr
+//@ ensures result != nil && typeis(n.elem, *AttrExpr) && result == n.elem.(*AttrExpr)
+
+//@ func (*Node).IndexExpr
+//@ props C01
+//@ pure
+//@ requires n != nil && n.NodeType == TypeIndexExpr
+//@ ensures result != nil && typeis(n.elem, *IndexExpr) && result == n.elem.(*IndexExpr)
+
+//@ func (*Node).InExpr
+//@ props C01
+//@ pure
+//@ requires n != nil && n.NodeType == TypeInExpr
+//@ ensures result != nil && typeis(n.elem, *InExpr) && result == n.elem.(*InExpr)
+
+//@ func (*Node).UnaryExpr
+//@ props C01
+//@ pure
+//@ requires n != nil && n.NodeType == TypeUnaryExpr
+//@ ensures result != nil && typeis(n.elem, *UnaryExpr) && result == n.elem.(*UnaryExpr)
+
+//@ func (*Node).ArithmeticExpr
+//@ props C01
+//@ pure
+//@ requires n != nil && n.NodeType == TypeArithmeticExpr
+//@ ensures result != nil && typeis(n.elem, *ArithmeticExpr) && result == n.elem.(*ArithmeticExpr)
+
+//@ func (*Node).ConditionalExpr
+//@ props C01
+//@ pure
+//@ requires n != nil && n.NodeType == TypeConditionalExpr
+//@ ensures result != nil && typeis(n.elem, *ConditionalExpr) && result == n.elem.(*ConditionalExpr)
+
+//@ func (*Node).AssignmentExpr
+//@ props C01
+//@ pure
+//@ requires n != nil && n.NodeType == TypeAssignmentExpr
+//@ ensures result != nil && typeis(n.elem, *AssignmentExpr) && result == n.elem.(*AssignmentExpr)
+
+//@ func (*Node).CallExpr
+//@ props C01
+//@ pure
+//@ requires n != nil && n.NodeType == TypeCallExpr
+//@ ensures result != nil && typeis(n.elem, *CallExpr) && result == n.elem.(*CallExpr)
+
+//@ func (*Node).SliceExpr
+//@ props C01
+//@ pure
+//@ requires n != nil && n.NodeType == TypeSliceExpr
+//@ ensures result != nil && typeis(n.elem, *SliceExpr) && result == n.elem.(*SliceExpr)
+
+//@ func (*Node).BlockStmt
+//@ props C01
+//@ pure
+//@ requires n != nil && n.NodeType == TypeBlockStmt
+//@ ensures result != nil && typeis(n.elem, *BlockStmt) && result == n.elem.(*BlockStmt)
+
+//@ func (*Node).IfelseStmt
+//@ props C01
+//@ pure
+//@ requires n != nil && n.NodeType == TypeIfelseStmt
+//@ ensures result != nil && typeis(n.elem, *IfelseStmt) && result == n.elem.(*IfelseStmt)
+
+//@ func (*Node).ForStmt
+//@ props C01
+//@ pure
+//@ requires n != nil && n.NodeType == TypeForStmt
+//@ ensures result != nil && typeis(n.elem, *ForStmt) && result == n.elem.(*ForStmt)
+
+//@ func (*Node).ForInStmt
+//@ props C01
+//@ pure
+//@ requires n != nil && n.NodeType == TypeForInStmt
+//@ ensures result != nil && typeis(n.elem, *ForInStmt) && result == n.elem.(*ForInStmt)
+
+//@ func (*Node).ContinueStmt
+//@ props C01
+//@ pure
+//@ requires n != nil && n.NodeType == TypeContinueStmt
+//@ ensures result != nil && typeis(n.elem, *ContinueStmt) && result == n.elem.(*ContinueStmt)
+
+//@ func (*Node).BreakStmt
+//@ props C01
+//@ pure
+//@ requires n != nil && n.NodeType == TypeBreakStmt
+//@ ensures result != nil && typeis(n.elem, *BreakStmt) && result == n.elem.(*BreakStmt)
+
+//@ func WrapIdentifier
+//@ props C05
+//@ requires node != nil
+//@ ensures result != nil && fresh(result) && result.NodeType == TypeIdentifier && result.elem == any(node)
+
+//@ func WrapStringLiteral
+//@ props C05
+//@ requires node != nil
+//@ ensures result != nil && fresh(result) && result.NodeType == TypeStringLiteral && result.elem == any(node)
+
+//@ func WrapIntegerLiteral
+//@ props C05
+//@ requires node != nil
+//@ ensures result != nil && fresh(result) && result.NodeType == TypeIntegerLiteral && result.elem == any(node)
+
+//@ func WrapFloatLiteral
+//@ props C05
+//@ requires node != nil
+//@ ensures result != nil && fresh(result) && result.NodeType == TypeFloatLiteral && result.elem == any(node)
+
+//@ func WrapBoolLiteral
+//@ props C05
+//@ requires node != nil
+//@ ensures result != nil && fresh(result) && result.NodeType == TypeBoolLiteral && result.elem == any(node)
+
+//@ func WrapNilLiteral
+//@ props C05
+//@ requires node != nil
+//@ ensures result != nil && fresh(result) && result.NodeType == TypeNilLiteral && result.elem == any(node)
+
+//@ func WrapListInitExpr
+//@ props C05
+//@ requires node != nil
+//@ ensures result != nil && fresh(result) && result.NodeType == TypeListLiteral && result.elem == any(node)
+
+//@ func WrapMapLiteral
+//@ props C05
+//@ requires node != nil
+//@ ensures result != nil && fresh(result) && result.NodeType == TypeMapLiteral && result.elem == any(node)
+
+//@ func WrapParenExpr
+//@ props C05
+//@ requires node != nil
+//@ ensures result != nil && fresh(result) && result.NodeType == TypeParenExpr && result.elem == any(node)
+
+//@ func WrapAttrExpr
+//@ props C05
+//@ requires node != nil
+//@ ensures result != nil && fresh(result) && result.NodeType == TypeAttrExpr && result.elem == any(node)
+
+//@ func WrapIndexExpr
+//@ props C05
+//@ requires node != nil
+//@ ensures result != nil && fresh(result) && result.NodeType == TypeIndexExpr && result.elem == any(node)
+
+//@ func WrapArithmeticExpr
+//@ props C05
+//@ requires node != nil
+//@ ensures result != nil && fresh(result) && result.NodeType == TypeArithmeticExpr && result.elem == any(node)
+
+//@ func WrapConditionExpr
+//@ props C05
+//@ requires node != nil
+//@ ensures result != nil && fresh(result) && result.NodeType == TypeConditionalExpr && result.elem == any(node)
+
+//@ func WrapInExpr
+//@ props C05
+//@ requires node != nil
+//@ ensures result != nil && fresh(result) && result.NodeType == TypeInExpr && result.elem == any(node)
+
+//@ func WrapUnaryExpr
+//@ props C05
+//@ requires node != nil
+//@ ensures result != nil && fresh(result) && result.NodeType == TypeUnaryExpr && result.elem == any(node)
+
+//@ func WrapAssignmentStmt
+//@ props C05
+//@ requires node != nil
+//@ ensures result != nil && fresh(result) && result.NodeType == TypeAssignmentExpr && result.elem == any(node)
+
+//@ func WrapCallExpr
+//@ props C05
+//@ requires node != nil
+//@ ensures result != nil && fresh(result) && result.NodeType == TypeCallExpr && result.elem == any(node)
+
+//@ func WrapSliceExpr
+//@ props C05
+//@ requires node != nil
+//@ ensures result != nil && fresh(result) && result.NodeType == TypeSliceExpr && result.elem == any(node)
+
+//@ func WrapIfelseStmt
+//@ props C05
+//@ requires node != nil
+//@ ensures result != nil && fresh(result) && result.NodeType == TypeIfelseStmt && result.elem == any(node)
+
+//@ func WrapForStmt
+//@ props C05
+//@ requires node != nil
+//@ ensures result != nil && fresh(result) && result.NodeType == TypeForStmt && result.elem == any(node)
+
+//@ func WrapForInStmt
+//@ props C05
+//@ requires node != nil
+//@ ensures result != nil && fresh(result) && result.NodeType == TypeForInStmt && result.elem == any(node)
+
+//@ func WrapContinueStmt
+//@ props C05
+//@ requires node != nil
+//@ ensures result != nil && fresh(result) && result.NodeType == TypeContinueStmt && result.elem == any(node)
+
+//@ func WrapBreakStmt
+//@ props C05
+//@ requires node != nil
+//@ ensures result != nil && fresh(result) && result.NodeType == TypeBreakStmt && result.elem == any(node)
+
+//@ func WrapeBlockStmt
+//@ props C05
+//@ requires node != nil
+//@ ensures result != nil && fresh(result) && result.NodeType == TypeBlockStmt && result.elem == any(node)
+
+
+// Shape facts of trees the parser returns (established by the constructors in
+// pkg/parser; list-element facts rest on "a nil child implies a recorded parse
+// error, and ParsePipeline returns no tree when an error was recorded").
+
+//@ struct ForInStmt
+//@ props C01 C05
+//@ invariant self.Varb != nil && self.Varb.NodeType == TypeIdentifier
+
+//@ struct IfelseStmt
+//@ props C01 C05
+//@ invariant forall i :: 0 <= i && i < len(self.IfList) ==> self.IfList[i] != nil
+
+//@ struct AssignmentExpr
+//@ props C01 C05
+//@ invariant forall i :: 0 <= i && i < len(self.LHS) ==> self.LHS[i] != nil
+//@ invariant forall i :: 0 <= i && i < len(self.RHS) ==> self.RHS[i] != nil
+
+//@ sweep[C01] NodeStartPos (*Node).StartPos
+
+//@ spec wfValA(v any, t DType) bool = (t == String ==> typeis(v, string)) && (t == List ==> typeis(v, []any))
+//@ | && (t == Map ==> typeis(v, map[string]any) && v.(map[string]any) != nil) && (t == Int ==> typeis(v, int64))
+//@ | && (t == Float ==> typeis(v, float64)) && (t == Bool ==> typeis(v, bool))
+//@ | && (t == Nil ==> v == nil)
+
+//@ func DectDataType
+//@ props C01
+//@ pure
+//@ ensures wfValA(result0, result1)
+//@ ensures typeis(val, string) || typeis(val, int64) || typeis(val, float64) || typeis(val, bool) || typeis(val, []any) || typeis(val, map[string]any) || val == nil ==> result0 == val && result1 != Invalid
+
+//@ func NodeStartPos
+//@ props C01 C17
+//@ pure
+
+//@ func (*Node).StartPos
+//@ props C01 C17
+//@ pure
